@@ -264,3 +264,9 @@ def _norm_slot_and_round_type(ctx):
             inner = f.unwrap(a)
             ctx.ob('ROUND-TYPE', '%s:%s' % (f.name, f.s(inner)[:50]), inner.get('t') == 'float', f.loc(c),
                    'psf_lrintf (%s) : argument type %s' % (f.s(inner)[:60], inner.get('t')), None)
+
+    ctx.rule('KERNEL-SIBS', 'the s / i / f / d variants of one conversion kernel (<code>2T_array, T2<code>_array) agree on everything that is not the sample type: carried locals '
+             '(accumulators, values copied into or out of the codec state) have the same type, and the stores into the codec-private state are the same (field, expression) pairs', floor=20)
+    from engine.kernelsibs import kernel_sibs
+    ctx.require(kernel_sibs(ctx, prog) >= 20, 'too few kernel families found')
+
